@@ -36,6 +36,8 @@ Nil == <<"nil">>
 S(ns, n) == <<"S", ns, n>>
 E == <<"E">>
 
+\* a member published under another name (sub_name) travels under that name, wherever in the class tree it was declared
+PubN(f) == IF "sub" \in DOMAIN f THEN f.sub ELSE f.n
 RECURSIVE FlatFields(_)
 FlatFields(t) == (IF t.hasbase THEN FlatFields(t.base) ELSE <<>>) \o t.fields
 \* the class that declares flat field number k decides its namespace
@@ -69,8 +71,8 @@ EncFields(t, fl, vals, tns, poly, k) ==
   IF k > Len(fl) THEN <<>>
   ELSE LET f == fl[k]  x == vals[k]  ns == OwnerNs(t, k)
            here == IF f.t.k = "attr" THEN <<>>
-                   ELSE IF f.max > 1 THEN (IF x = Nil THEN <<>> ELSE EncItems(f.t, x[2], ns, f.n, tns, poly, 1))
-                   ELSE IF x # Nil \/ f.min > 0 THEN EncElem(f.t, x, ns, f.n, tns, poly)
+                   ELSE IF f.max > 1 THEN (IF x = Nil THEN <<>> ELSE EncItems(f.t, x[2], ns, PubN(f), tns, poly, 1))
+                   ELSE IF x # Nil \/ f.min > 0 THEN EncElem(f.t, x, ns, PubN(f), tns, poly)
                    ELSE <<>>
        IN here \o EncFields(t, fl, vals, tns, poly, k + 1)
 \* the public type name of a class (`name` identifies the class in the model; two classes may share a type name across namespaces)
